@@ -97,16 +97,24 @@ Definition is_whole (r : option (nat * nat * meaning)) : bool :=
 Definition wtf8_meaningful (r : option (nat * nat * meaning)) : bool :=
   match r with Some (_, _, (MWhole _ | MLead _ | MTrail _)) => true | _ => false end.
 
+(* WTF8::validate: the classified code point must start at the scan position
+   (rewind = 0), be a scalar value or a surrogate, and a trail surrogate must not
+   directly follow a lead surrogate *)
 Fixpoint wtf8_loop (fuel : nat) (buf : list N) (i : nat) (prev_lead : bool) : bool :=
   if Nat.leb (length buf) i then true
   else match fuel with
        | O => false
        | S f =>
          match classify buf i with
-         | Some (_, n, MWhole _) => wtf8_loop f buf (i + n) false
-         | Some (_, n, MLead _) => wtf8_loop f buf (i + n) true
-         | Some (_, n, MTrail _) => if prev_lead then false else wtf8_loop f buf (i + n) false
-         | _ => false
+         | Some (st, n, m) =>
+           if negb (Nat.eqb st i) then false
+           else match m with
+                | MWhole _ => wtf8_loop f buf (i + n) false
+                | MLead _ => wtf8_loop f buf (i + n) true
+                | MTrail _ => if prev_lead then false else wtf8_loop f buf (i + n) false
+                | _ => false
+                end
+         | None => false
          end
        end.
 
@@ -363,6 +371,9 @@ Definition clone (t : tendril) : M (tendril * tendril) :=
     end
   end.
 
+Definition fixup_none (fx : N * N * list N) : bool :=
+  let '(dl, dr, ins) := fx in (dl =? 0) && (dr =? 0) && (llen ins =? 0).
+
 Definition push_tendril (f : fmt) (t o : tendril) : M tendril :=
   let nl := tlen t + tlen o in
   if MAXU32 <? nl then panic 7
@@ -370,7 +381,13 @@ Definition push_tendril (f : fmt) (t o : tendril) : M tendril :=
     let generic := (x <- bytes_of o ;; push_bytes_wv f t x) in
     match t, o with
     | Shared i ot lt, Shared j oo _ =>
-      if (i =? j) && (oo =? ot + lt) then ret (Shared i ot nl) else generic
+      if (i =? j) && (oo =? ot + lt) then
+        (* adjacent slices of one buffer: joined in place unless the format
+           has to fix up the junction *)
+        x <- bytes_of t ;;
+        y <- bytes_of o ;;
+        if fixup_none (fixup f x y) then ret (Shared i ot nl) else push_bytes_wv f t y
+      else generic
     | _, _ => generic
     end.
 
